@@ -136,6 +136,9 @@ pub mod pool {
     /// io_uring ring: an entry was written
     /// (a = buffer id | ring index << 16 | tail before the write << 32).
     pub const RING_ADD: i64 = 13;
+    /// io_uring: the completion being reaped carries this buffer id (the kernel
+    /// consumed it from the ring), whatever its result.
+    pub const KERNEL_SELECTED: i64 = 14;
 }
 
 static LOG: Mutex<Option<Vec<Event>>> = Mutex::new(None);
